@@ -119,7 +119,7 @@ def path_classes(pp, path, flags, impl_accepts, verdict, text):
             continue
         for seg in set(psegs):
             out |= seg_classes(s, seg, dot, True, nodotdir, impl_accepts, verdict)
-    k5 = (flags.get('matchbase') and len(pp.segs) == 1 and pp.segs[0] in (A.GS, A.GSL) and not pp.trail) or \
+    k5 = (flags.get('matchbase') and all(isinstance(s_, str) for s_ in pp.segs) and not pp.trail) or \
         (flags.get('extmatchbase') and pp.segs[0] in (A.GS, A.GSL))
     if k5 and not pp.absolute:
         if impl_accepts and verdict == R.MUSTNOT and any(s[:1] == '.' for s in (psegs if _ab else psegs[1:])):
